@@ -15,3 +15,7 @@ pub mod c10;
 pub mod c09;
 #[cfg(kani)]
 pub mod c17;
+#[cfg(kani)]
+pub mod c16;
+#[cfg(kani)]
+pub mod c18;
